@@ -58,7 +58,22 @@ impl Handler for Server {
     }
 
     fn on_message(&mut self, msg: Message) -> ws::Result<()> {
-        let message = msg.as_text().unwrap();
+        let message = match msg.as_text() {
+            Ok(message) => message,
+            Err(_) => {
+                // A binary (or not UTF-8) frame is not a command line: answer it with an error
+                // instead of panicking the event loop that serves every WebSocket client
+                match self
+                    .client
+                    .sender
+                    .try_send(String::from("error only text messages are supported \n"))
+                {
+                    Ok(_) => {}
+                    Err(e) => log::warn!("ws_ops::on_message::try_send::Error {}", e),
+                }
+                return Ok(());
+            }
+        };
         log::debug!(
             "[{}] Server got message '{}'. ",
             thread_id::get(),
